@@ -304,6 +304,19 @@ def run(rep, repo, tier):
 
 def check_path(rep, f, t, names, n_t, s_t, cond_txt, subst_s, n_is_one, unknown_guard):
     w = f.where
+    # min(1, s) / max(1, s) in the formula: decided on s >= 1 and on s <= 1 separately (both are admissible skews)
+    def is_mm(x):
+        return x[0] == 'call' and x[1] in (S('min'), S('max')) and len(x[2]) == 2 and not (len(x) > 3 and x[3]) \
+            and s_t in x[2] and any(y in (C(1), C(1.0)) for y in x[2])
+    if contains(t, is_mm):
+        for label, big in (('s >= 1', True), ('s <= 1', False)):
+            def pick(x, big=big):
+                if is_mm(x):
+                    one = [y for y in x[2] if y in (C(1), C(1.0))][0]
+                    return (s_t if big else one) if x[1] == S('max') else (one if big else s_t)
+                return None
+            check_path(rep, f, simp_top(subst(t, pick)), names, n_t, s_t, (cond_txt + ' and ' + label) if cond_txt != 'always' else label, subst_s, n_is_one, unknown_guard)
+        return
     # result = L / sum(L)
     t = unwrap_array(t)
     if n_is_one and not (t[0] == 'bin' and t[1] == 'Div'):
@@ -364,7 +377,7 @@ def check_path(rep, f, t, names, n_t, s_t, cond_txt, subst_s, n_is_one, unknown_
         fx = Rat(psub_atom(fx.num, 's', subst_s), psub_atom(fx.den, 's', subst_s))
     txt = '(%s) / (%s)' % (pshow(fx.num), pshow(fx.den))
     # coverage: indices lo..n-1 with lo in {0, 1}; index 0 explicit when lo == 1
-    lo_ok = lo in (C(0), C(1)) and hi == n_t and (lo == C(0) or 0 in lm.points)
+    lo_ok = lo in (C(0), C(1)) and hi == n_t and (lo == C(0) or 0 in lm.points or lm.default is not None)
     rep.check(lo_ok, 'C17.R1', w, 'the formula covers every entry after the first (x = 1 .. n-1) [%s]' % cond_txt, got='x in range(%s, %s)' % (show(lo), show(hi)), want='range(1, n)',
               construct='formula range(%s, %s)' % (show(lo), show(hi)))
     # affine in x
@@ -374,7 +387,7 @@ def check_path(rep, f, t, names, n_t, s_t, cond_txt, subst_s, n_is_one, unknown_
     n0, d0 = psub_atom(fx.num, 'x', pconst(0)), psub_atom(fx.den, 'x', pconst(0))
     rep.check(psub(n0, d0) == {}, 'C17.R1', w, 'f(0) = 1 [%s]' % cond_txt, got='f(0) = (%s)/(%s)' % (pshow(n0), pshow(d0)), want='1', construct='f(0) = (%s)/(%s)' % (pshow(n0), pshow(d0)))
     if lo == C(1):
-        p0 = lm.points.get(0)
+        p0 = lm.points.get(0, lm.default)           # the first entry: written explicitly, or the value the list was created with
         rep.check(p0 in (C(1), C(1.0)), 'C17.R1', w, 'the explicit first entry equals f(0) = 1 [%s]' % cond_txt, got=show(p0) if p0 else None, want='1.0', construct='first entry %s' % (show(p0) if p0 else None))
     # f(n-1) = s
     nm1 = psub(patom('n'), pconst(1))
